@@ -542,6 +542,9 @@ def h7(ctx):
             ctx.oblige(1, sample='eq compares addresses: %s' % fmt(p.ret))
             r = p.ret
             ok = r is not None and r[0] == 'bin' and r[1] == 'Eq' and contains(r, ('param', 1)) and contains(r, ('param', 2)) and not any(e.kind == 'call' for e in p.events)
+            if r is not None and r[0] == 'call' and r[2] == 'std::ptr::eq' and len(r[3]) == 2 and contains(r[3][0], ('param', 1)) and contains(r[3][1], ('param', 2)) \
+                    and [e.name for e in p.events if e.kind == 'call'] == ['std::ptr::eq']:
+                ok = True  # core::ptr::eq(self.0, other): the same comparison of the two addresses
             if not ok:
                 ctx.violate(key, p, 'eq is not a pure address comparison: %s' % fmt(r))
 
